@@ -19,7 +19,7 @@ fn c04_badfilter_and_monotonicity() {
     let types = ["script", "image", "xmlhttprequest"];
     let mut seed = 31337u64;
     let mut next = move |n: usize| { seed = seed.wrapping_mul(6364136223846793005).wrapping_add(1442695040888963407); ((seed >> 33) as usize) % n };
-    let lists = if std::env::var("VF_TIER").as_deref() == Ok("thorough") { 4000 } else { 300 };
+    let lists = if std::env::var("VF_TIER").as_deref() == Ok("thorough") { 4000 } else { 120 };
     let text = |exc: bool, p: &str, o: &str, bad: bool| -> String {
         let mut opts: Vec<&str> = if o.is_empty() { vec![] } else { vec![o] };
         if bad { opts.push("badfilter"); }
@@ -61,5 +61,5 @@ fn c04_badfilter_and_monotonicity() {
         for ((b, _), (a, _)) in before.iter().zip(verdicts(&plus_exc, optimize).iter()) { assert!(!(*a && !*b), "adding the exception {:?} to {without:?} blocked a request that was allowed", plus_exc.last()); }
         for ((b, _), (a, _)) in before.iter().zip(verdicts(&plus_blk, optimize).iter()) { assert!(!(*b && !*a), "adding the blocking rule {:?} to {without:?} allowed a request that was blocked", plus_blk.last()); }
     }
-    assert!(cases >= 300);
+    assert!(cases >= 100);
 }
